@@ -13,6 +13,7 @@ CONSTANTS
  DevF13 = FALSE
  DevVerKey = FALSE
  DevDangEnd = TRUE
+ DevRepBeforePattern = FALSE
  DevLastOfName = FALSE
  DevNoAtomResname = FALSE
  DevOrderedPairs = FALSE
